@@ -34,3 +34,23 @@ Definition resolve_end (e : option Z) (now : Z) : Z := match e with Some x => x 
 Definition listed_opt (s : Z) (eo : option Z) (now t : Z) : bool :=
   existsb (Z.eqb (day t)) (days_enumerated s (resolve_end eo now)) && (s <=? t) &&
   match eo with Some e => t <=? e | None => true end.
+
+(** A lookup that also gives a metadata filter (s3_tape_cassette.py:285-304 builds the content
+    filter; s3_basic_facade.py:74-101: the facade collects the predicates [window predicate when a
+    date is given; content predicate when a filter is given] and yields an object iff every one of
+    them accepts it).  An object is abstracted to (last-modified instant, does its stored metadata
+    satisfy the caller's filter). *)
+Definition obj : Type := (Z * bool)%type.
+Definition window_pred (s : Z) (eo : option Z) : obj -> bool :=
+  fun o => (s <=? fst o) && match eo with Some e => fst o <=? e | None => true end.
+Definition content_pred : obj -> bool := fun o => snd o.
+Definition predicates (s : Z) (eo : option Z) (filtered : bool) : list (obj -> bool) :=
+  window_pred s eo :: (if filtered then [content_pred] else []).
+(** [reduce(lambda carry, current: carry and current(s3_object), predicates, True)] *)
+Definition relevant (preds : list (obj -> bool)) (o : obj) : bool :=
+  fold_left (fun carry p => carry && p o) preds true.
+(** listed iff the recording's day folder is enumerated and the facade finds the object relevant;
+    [m] = the stored metadata satisfies the filter (irrelevant when no filter is given) *)
+Definition listed_matching (s : Z) (eo : option Z) (now : Z) (filtered : bool) (t : Z) (m : bool) : bool :=
+  existsb (Z.eqb (day t)) (days_enumerated s (resolve_end eo now)) &&
+  relevant (predicates s eo filtered) (t, m).
